@@ -144,7 +144,15 @@ def check_astronomic(ctx, k):
     p = lib.pamqp()
     e, d = p.encode, p.decode
     soft, hard = resource.getrlimit(resource.RLIMIT_AS)
+    # 2 GiB, or what this process already maps plus 1.5 GiB if that is more
+    # (the cap must bite on the library's allocation, never on the harness)
     cap = 2 << 30
+    try:
+        with open('/proc/self/statm') as fh:
+            mapped = int(fh.read().split()[0]) * resource.getpagesize()
+        cap = max(cap, mapped + (3 << 29))
+    except (OSError, ValueError, IndexError):
+        pass
     if hard != resource.RLIM_INFINITY:
         cap = min(cap, hard)
     resource.setrlimit(resource.RLIMIT_AS, (cap, hard))
